@@ -61,6 +61,9 @@ def gen_cases(ctx, lengths, modes):
                         c["a"] = str(f2b(r.choice([0.125, 0.3, 1.0, -0.7, 2.5])))
                     else:
                         c["a"] = str(gen_value(r, mode if mode != "full" else "moderate"))
+                        if mode == "full" and r.random() < 0.15:
+                            # a step of exactly +0 / -0 together with non-finite entries: 0 * inf = NaN
+                            c["a"] = str(f2b(r.choice([0.0, -0.0])))
                 cases.append(c)
                 cid += 1
     return cases
